@@ -5,7 +5,7 @@
 (* number of items), and the guards of the code's failure sites hold in every reached state:   *)
 (* spans are non-empty when their bounds are taken, rect endorsement only reads lines selected *)
 (* by the parallel filter, arcs only from the right-angle filter.                              *)
-EXTENDS Bridge
+EXTENDS BridgeP
 CONSTANTS W, H, Alphabet
 MCInit == InitWith([1..H -> [1..W -> Alphabet]])
 Spec == MCInit /\ [][Next]_vars /\ WF_vars(Next)
